@@ -19,7 +19,7 @@ NoObj == [vs |-> "none", bs |-> "none", roots |-> 0, wroots |-> 0, s |-> <<>>, p
 
 MonInit == [cfg |-> [fin |-> TRUE, weak |-> TRUE, dbg |-> TRUE, auto |-> FALSE, clean |-> FALSE, ns |-> 2, np |-> 0, nw |-> 0, run |-> 0],
             objs |-> <<>>, stack |-> <<>>, seen |-> {}, viol |-> <<>>, log |-> <<>>, n |-> 0,
-            bytes |-> 0, blocks |-> <<>>, faulted |-> FALSE, resur |-> FALSE, x |-> 0, lastbf |-> 0,
+            bytes |-> 0, blocks |-> <<>>, faulted |-> FALSE, resur |-> FALSE, x |-> 0, lastbf |-> 0, wn |-> 0,
             acfg |-> [auto |-> FALSE, pn |-> 1, pd |-> 10, bt |-> 0], big |-> FALSE,
             acts |-> <<>>, cgone |-> {}, wup |-> FALSE]
 
@@ -243,7 +243,8 @@ CheckObs(m, e) ==
       m6 == IF "walk" \in DOMAIN e THEN CheckWalk(m5, e) ELSE m5
       m7 == Flag(m6, "obspanic" \in DOMAIN e, "C07", "observing the program's own handles panicked")
       bigNow == ("sc" \in DOMAIN e /\ \E i \in DOMAIN e.sc : e.sc[i][2] >= 16000 \/ e.sc[i][3] >= 32000)
-  IN [m7 EXCEPT !.big = @ \/ bigNow, !.x = e.x, !.lastbf = IF "walk" \in DOMAIN e THEN Len(e.walk) ELSE @]
+  IN [m7 EXCEPT !.big = @ \/ bigNow, !.x = e.x, !.lastbf = IF "walk" \in DOMAIN e THEN Len(e.walk) ELSE @,
+                   !.wn = IF "walk" \in DOMAIN e THEN m.n ELSE @]
 
 MaxStrong == 16382
 MaxWeak == 32767
@@ -357,7 +358,11 @@ OnRet(m00, e) ==
                    a5 == Flag(a4, res = "ok" /\ Known(mL, o) /\ mL.objs[o].bs # "freed", "C13", "try_unwrap did not release the allocation")
                    a6 == Flag(a5, res = "err" /\ ~Get(e, "same", TRUE), "C13", "try_unwrap returned Err with a different pointer")
                    a7 == Flag(a6, res = "ok" /\ InWalk(e, o), "C13", "unwrapped object still buffered")
-               IN a7
+                   \* Err leaves the buffering unchanged: judged for top-level calls whose call event directly follows a return
+                   \* with a buffer walk (nothing can have touched the buffer in between)
+                   a8 == Flag(a7, res = "err" /\ lim = 0 /\ fr.ncb = 0 /\ "walk" \in DOMAIN e /\ m00.wn = m00.n - 2 /\ Len(e.walk) # m00.lastbf,
+                              "C13", "a failed try_unwrap changed the buffer (" \o ToString(m00.lastbf) \o " -> " \o ToString(Len(e.walk)) \o " objects)")
+               IN a8
           [] op = "fagain" ->
                LET a1 == Flag(mL, inDestr /\ res # "fagain", "C12", "finalize_again did not panic inside a finalizer or destructor")
                    a2 == Flag(a1, ~inDestr /\ ~collOuter /\ ~CollRunning(m00) /\ res # "ok" /\ e.panic # "fagain", "C12", "finalize_again failed outside a collection")
